@@ -34,6 +34,9 @@ pub enum Lane {
 
 #[derive(Debug, Clone)]
 pub struct NetCfg {
+    /// permille of client datagrams that start with an Initial packet and get 2-8 junk long-header
+    /// packets (undecryptable 0-RTT) coalesced behind it, as an attacker replaying the Initial could
+    pub coalesce_junk_pm: u32,
     /// every datagram addressed to one of these is lost (a peer that never hears anything)
     pub blackhole_dst: Vec<SocketAddr>,
     /// corrupt Retry packets in flight: (kind, how many Retry packets from the start are affected)
@@ -65,6 +68,7 @@ pub struct NetCfg {
 impl Default for NetCfg {
     fn default() -> Self {
         Self {
+            coalesce_junk_pm: 0,
             blackhole_dst: vec![],
             retry_mutation: None,
             latency_ns: 10_000_000,
@@ -626,6 +630,24 @@ impl World {
         self.net.dir_count[dir] += 1;
         self.net.gid += 1;
         let gid = self.net.gid;
+        let mut data = data;
+        if self.netcfg.coalesce_junk_pm > 0 && dir == 0 && data.len() >= 1200 && data[0] & 0xf0 == 0xc0 && self.rng_inject.permille(self.netcfg.coalesce_junk_pm) {
+            // Initial packets carry their own length, so whatever follows is a further packet
+            let (dl, sl) = (data[5] as usize, *data.get(6 + data[5] as usize).unwrap_or(&0) as usize);
+            let k = 2 + self.rng_inject.below(7);
+            for _ in 0..k {
+                let mut p = vec![0xd0 | (self.rng_inject.below(4) as u8)]; // long header, type 0-RTT
+                p.extend_from_slice(&data[1..5]); // version
+                p.extend_from_slice(&data[5..6 + dl]); // dcid
+                p.extend_from_slice(&data[6 + dl..7 + dl + sl]); // scid
+                let body = 20 + self.rng_inject.usize(12);
+                crate::wire::put_var(&mut p, body as u64);
+                let b = self.rng_inject.bytes(body);
+                p.extend(b);
+                data.extend(p);
+            }
+            self.net.fired.inc("coalesced_junk");
+        }
         self.mon.on_wire(gid, from_ep, origin, src, dst, &data);
         let faults_on = self.now < self.netcfg.fault_until_ns;
         let n = &self.netcfg;
